@@ -59,7 +59,7 @@ def run(rep: common.Reporter, tier: str) -> dict:
         docs += random.Random(seed).sample(d4, min(len(d4), 400))
     ncalls = 0
     with mp.Pool(16) as pool:
-        for n, out in pool.imap_unordered(_claims_chunk, [([seed % 12], ch) for ch in common.chunked(docs, 20)]):
+        for n, out in common.gmap(pool, rep, _claims_chunk, [([seed % 12], ch) for ch in common.chunked(docs, 20)]):
             ncalls += n
             for msg, text, plan in out:
                 rep.violation('C05/claims/tree', {'what': msg, 'text': text, 'calls': plan})
